@@ -5,7 +5,7 @@ CONSTANTS
   Gates <- GatesP3
   NewParams <- NewParamsC
   Queries <- QueriesP3
-  MaxDepth = 4
+  MaxDepth = 3
   Record = FALSE
   Deviations <- NoDev
   ConeIgnoresSwap = FALSE
